@@ -1,9 +1,115 @@
-import PcfgVerif.Model.DetectSpec
-/-! C05 — (detector theorems are added when proved) -/
-namespace Pcfg.C05
+import PcfgVerif.Properties.DetectCoreA
+import PcfgVerif.Properties.DetectCoreB
+import PcfgVerif.Properties.DetectCoreC
+/-!
+# C05 — training segments every password into a lossless, soundly typed tiling
 
-/-- table facts the detectors rely on: walks need at least four keys, year prefixes have two digits,
-no TLD or context string is empty -/
+`parse U cfg t pw` is `PCFGPasswordParser.parse` (keyboard walks, e-mails, websites, years, context
+strings, alpha (+ multi-word), digits, other).  `U` is CPython's Unicode database as a parameter;
+`LenPres U pw`: the detectors' lower-casing keeps the length of every substring of `pw` — what
+`case_util.lower_keep_length` guarantees by construction.  `t` is the multi-word table after an
+arbitrary training history (`mwTrain_count` says what it holds).
+-/
+namespace Pcfg.C05
+open Pcfg.Detect
+
+/-- one list-level pass preserves the tiling -/
+theorem stage_tiles {F : Type} (U : UEnv) (pw : CPs) (hl : LenPres U pw)
+    (detect : CPs → Option (List Sec × F)) (adv : Advance) (hd : DetectorOK U detect)
+    (s : List Sec) (h : TilesFrom U pw 0 s) :
+    TilesFrom U pw 0 (splitLoop detect adv (loopFuel s) [] s []).1 :=
+  splitLoop_tiles U detect adv hd pw hl (loopFuel s) [] s [] (by simpa using h)
+
+/-- lossless tiling: the final sections tile the password left to right — every section non-empty,
+every section except a website the exact slice at its offset, a website section the lower-cased
+slice — and every section carries a label -/
+theorem C05_tiling (U : UEnv) (cfg : MWCfg) (t : MWTable) (pw : CPs) (hne : pw ≠ [])
+    (hl : LenPres U pw) (hmin : 0 < cfg.minLen) :
+    TilesFrom U pw 0 (parse U cfg t pw).sections ∧ AllLabelled (parse U cfg t pw).sections := by
+  let s0 := (detectKeyboardWalk U pw).1
+  let s1 := (splitLoop (detectEmail U) .skipFirst (loopFuel s0) [] s0 []).1
+  let s2 := (splitLoop (detectWebsite U) .skipFirst (loopFuel s1) [] s1 []).1
+  let s3 := (splitLoop (detectYear U) .recheck (loopFuel s2) [] s2 []).1
+  let s4 := (splitLoop (detectContext U) .recheck (loopFuel s3) [] s3 []).1
+  let s5 := (splitLoop (detectAlpha U cfg t) .skipFirst (loopFuel s4) [] s4 []).1
+  let s6 := (splitLoop (detectDigits U) .skipFirst (loopFuel s5) [] s5 []).1
+  have h0 : TilesFrom U pw 0 s0 := (detectKeyboardWalk_tiles U pw hne).1
+  have h1 : TilesFrom U pw 0 s1 := stage_tiles U pw hl _ _ (detectEmail_ok U) s0 h0
+  have h2 : TilesFrom U pw 0 s2 := stage_tiles U pw hl _ _ (detectWebsite_ok U) s1 h1
+  have h3 : TilesFrom U pw 0 s3 := stage_tiles U pw hl _ _ (detectYear_ok U) s2 h2
+  have h4 : TilesFrom U pw 0 s4 := stage_tiles U pw hl _ _ (detectContext_ok U) s3 h3
+  have h5 : TilesFrom U pw 0 s5 := stage_tiles U pw hl _ _ (detectAlpha_ok U cfg t hmin) s4 h4
+  have h6 : TilesFrom U pw 0 s6 := stage_tiles U pw hl _ _ (detectDigits_ok U) s5 h5
+  have hs : (parse U cfg t pw).sections = (otherDetection s6).1 := rfl
+  rw [hs]
+  exact ⟨otherDetection_tiles U pw s6 h6, (otherDetection_spec s6).1⟩
+
+/-- keyboard segments: at least four keys, consecutive keys adjacent on one layout common to the
+whole walk, at least two character classes, not black-listed -/
+theorem C05_keyboard (U : UEnv) (pw : CPs) (hne : pw ≠ []) (w : CPs)
+    (hw : w ∈ (detectKeyboardWalk U pw).2) :
+    4 ≤ w.length ∧ interesting U w = true ∧
+    ∃ b, ∀ i, i + 1 < w.length → adjacentOn b (w.getD i 0) (w.getD (i + 1) 0) := by
+  have h := detectKeyboardWalk_sound U pw hne w hw
+  exact ⟨by have := h.1; simpa [Generated.Tables.minKeyboardRun] using this, h.2.1, h.2.2⟩
+
+/-- years are four digits starting 19 or 20; context segments come from the fixed list -/
+theorem C05_year_context (U : UEnv) (text : CPs) :
+    (∀ pieces y, detectYear U text = some (pieces, y) →
+      y.length = 4 ∧ (∃ pre ∈ Generated.Tables.yearPrefixes, y.take 2 = pre) ∧
+      U.isDigit (y.getD 2 0) = true ∧ U.isDigit (y.getD 3 0) = true) ∧
+    (∀ pieces c, detectContext U text = some (pieces, c) → c ∈ Generated.Tables.contextList) :=
+  ⟨fun pieces y h => let r := detectYear_sound U text pieces y h; ⟨r.1, r.2.1, r.2.2.1, r.2.2.2.1⟩,
+   fun pieces c h => (detectContext_sound U text pieces c h).1⟩
+
+/-- alpha segments contain only letters, carry their length, one mask per word of the same length; a
+run is split into several words only when every part was seen at least `threshold` times (and is at
+least `minLen` long) and the whole was not -/
+theorem C05_alpha (U : UEnv) (cfg : MWCfg) (t : MWTable) (text : CPs) (hl : LenPres U text)
+    (pieces : List Sec) (words masks : List CPs)
+    (h : detectAlpha U cfg t text = some (pieces, (words, masks))) :
+    words.length = masks.length ∧ (∀ w ∈ words, w ≠ [] ∧ ∀ c ∈ w, U.isAlpha c = true) ∧
+    (∀ (i : Nat) w m, words[i]? = some w → masks[i]? = some m → m.length = w.length) :=
+  let r := detectAlpha_sound U cfg t text hl pieces words masks h
+  ⟨r.1, r.2.1, r.2.2.1⟩
+
+theorem C05_multiword (cfg : MWCfg) (t : MWTable) (s : CPs) (h : 1 < (mwParse cfg t s).2.length) :
+    mwCount t s < cfg.threshold ∧
+    ∀ w ∈ (mwParse cfg t s).2, cfg.threshold ≤ mwCount t w ∧ cfg.minLen ≤ w.length :=
+  mwParse_sound cfg t s h
+
+/-- for every prior training history the multi-word table is the tally of qualifying alpha runs -/
+theorem C05_multiword_history (U : UEnv) (cfg : MWCfg) (history : List CPs) (w : CPs) :
+    mwCount (history.foldl (fun t p => mwTrain U cfg t p) []) w =
+      (history.flatMap fun p =>
+        if p.length < cfg.minLen || p.length > cfg.maxLen then []
+        else (alphaRuns U (U.lowerPy p) []).filter fun r => decide (cfg.minLen ≤ r.length)).count w :=
+  mwTrain_count U cfg history w
+
+/-- digit segments are all digits, carry their length, and are maximal in the text the earlier
+detectors left unlabelled -/
+theorem C05_digits (U : UEnv) (text : CPs) (pieces : List Sec) (d : CPs)
+    (h : detectDigits U text = some (pieces, d)) :
+    d ≠ [] ∧ (∀ c ∈ d, U.isDigit c = true) ∧ (d, some (lbl 'D' d.length)) ∈ pieces ∧
+    ∃ pre post, text = pre ++ d ++ post ∧ (∀ c ∈ pre, U.isDigit c = false) ∧
+      (∀ c, post.head? = some c → U.isDigit c = false) :=
+  detectDigits_sound U text pieces d h
+
+/-- whatever is still unlabelled becomes `O<length>`, nothing else changes; the counters' "other" list
+is exactly those sections -/
+theorem C05_other (secs : List Sec) :
+    AllLabelled (otherDetection secs).1 ∧ (otherDetection secs).1.map (·.1) = secs.map (·.1) ∧
+    (otherDetection secs).2 = (secs.filter (fun s => s.2.isNone)).map (·.1) :=
+  let r := otherDetection_spec secs
+  ⟨r.1, r.2.1, r.2.2.2.2⟩
+
+/-- the walks reported (what the keyboard counter tallies) are exactly the `K` sections -/
+theorem C05_keyboard_counter (U : UEnv) (pw : CPs) (hne : pw ≠ []) :
+    (detectKeyboardWalk U pw).2 =
+      ((detectKeyboardWalk U pw).1.filter (fun s => s.2.isSome)).map (·.1) :=
+  detectKeyboardWalk_found U pw hne
+
+/-- table facts the detectors rely on -/
 theorem C05_tables : Generated.Tables.minKeyboardRun = 4 ∧
     (∀ p ∈ Generated.Tables.yearPrefixes, p.length = 2) ∧
     (∀ t ∈ Generated.Tables.tldList, t ≠ []) ∧ (∀ c ∈ Generated.Tables.contextList, c ≠ []) := by
